@@ -2,13 +2,14 @@ import NibabelModel.Model.C09
 import Driver.Util
 /-! Line-protocol driver for C09.
 
-  `C09 hist <orig 0|1> <init> <ops>`
+  `C09 hist <guard 0 current (maps_file) | 1 none (pinned) | 2 instance check only> <init> <ops>`
     init : 11 comma separated initial files `[>]<dt>[s]` (`>` big-endian header, dt ∈ `u8 i16 i32 f32 f64`, `s` written
            from float data with scale factors) or `-` (file absent), in the order
            a.nii a.nii.gz b.nii a.img a.mgh a.mgz s.img n.nii c.img.gz a.nii.bz2 b.nii.zst;
            file i starts with data id i, affine id i, tag 0; s.img is an SPM2 Analyze pair, n.nii a NIfTI-2 file
     ops  : comma separated  L<path 0-9a><mmap 0|1|2|3|4>[@spelling] | F | F4 | U | E<k> | A<k> | H<k> | D<dt> |
-           S<path>[@spelling] | B
+           S<path>[@spelling] | B | W<k 0-9>  (re-wrap: 0 asarray, 1 asanyarray, 2 proxy, 3 [::1], 4 .T.T,
+           5 .view(ndarray), 6 asfortranarray, 7 asanyarray[..., :], 8 np.array copy, 9 get_fdata())
   output: one token per op, then `live=…` and `fs=…` (nothing after the first `BAD`, also not after `live=BAD`).
 -/
 namespace Nb.Drv.C09
@@ -58,6 +59,14 @@ def parseOp? (s0 : String) : Option Op :=
     | some p, "3" => some (.load p true)      -- mmap=True, keep_file_open=True
     | some p, "4" => some (.load p false)     -- mmap=False, keep_file_open=True
     | _, _ => none
+  else if s.startsWith "W" ∧ s.length = 2 then
+    match (s.drop 1).toString with
+    | "0" | "3" | "4" | "5" | "6" => some (.wrap .plainView)
+    | "1" | "7" => some (.wrap .mapInst)
+    | "2" => some (.wrap .proxy)
+    | "8" => some (.wrap .copy)
+    | "9" => some (.wrap .fdata)
+    | _ => none
   else if s.startsWith "S" ∧ s.length = 2 then (parsePath? (s.drop 1).toString).map Op.save
   else if s.startsWith "E" then ((s.drop 1).toString.toNat?).map Op.edit
   else if s.startsWith "A" then ((s.drop 1).toString.toNat?).map Op.setAff
@@ -67,7 +76,7 @@ def parseOp? (s0 : String) : Option Op :=
 
 def opLetter : Op → String
   | .load _ _ => "L" | .fdata _ => "F" | .uncache => "U" | .edit _ => "E" | .setAff _ => "A" | .hdrEdit _ => "H"
-  | .setDt _ => "D" | .save _ => "S" | .toBytes => "B"
+  | .setDt _ => "D" | .save _ => "S" | .toBytes => "B" | .wrap _ => "W"
 
 def showAff (a : Nat) : String := if a = baseAff then "X" else toString a
 
@@ -121,7 +130,7 @@ def showLive (s : St) : String :=
         (match im.fname with | some p => showPathIdx p | none => "-") ++ "/" ++ toString d ++ "/" ++ toString d2
 
 /-- run, printing tokens; mirrors `Nb.C09.run` (stops at the first bad) -/
-def runShow (orig : Bool) : St → List Op → List String
+def runShow (orig : Guard) : St → List Op → List String
   | s, [] =>
       let l := showLive s
       if l = "live=BAD" then [l]
@@ -153,7 +162,8 @@ def mghInitOk (dts : List (Option Init)) : Bool :=
 
 def handle : List String → String
   | ["hist", orig, init, ops] =>
-      match (if orig = "0" then some false else if orig = "1" then some true else none),
+      match (if orig = "0" then some Guard.base else if orig = "1" then some Guard.none
+             else if orig = "2" then some Guard.inst else none),
             parseInit? init, (if ops = "-" then some [] else (ops.splitOn ",").mapM parseOp?) with
       | some o, some dts, some ops =>
           if mghInitOk dts then " ".intercalate (runShow o { fs := initFS dts, img := none } ops) else "bad-op"
